@@ -1,4 +1,56 @@
-From Coq Require Import ZArith List Bool.
-From GV Require Import C20.Lemmas.
-Theorem placeholder : True. Proof. exact Lemmas.placeholder. Qed.
-Print Assumptions placeholder.
+(* C20 — chunk, slice and broadcast helpers are exact.  Statements only; proofs in Lemmas.v.
+   find_chunk_shape / iterate_chunks / combine_slices below are the Gallina text REGENERATED from
+   /repo/glue/utils/array.py on every run (coq/gen/Gen_array.v). *)
+From Coq Require Import ZArith List Bool Sorting.Sorted.
+Import ListNotations.
+From GV Require Import Common.PyInt gen.Gen_array C20.Model C20.Lemmas.
+Open Scope Z_scope.
+
+(* no chunk larger than the requested limit; chunk shape fits the array shape (translated code) *)
+Theorem chunk_shape_bound : forall (shape : list Z) (n_max : Z),
+  1 <= n_max -> Forall (fun s => 1 <= s) shape ->
+  let c := find_chunk_shape shape (Some n_max) in
+  length c = length shape /\ Forall2 (fun ci si => 1 <= ci <= si) c shape /\ 1 <= zprod c <= n_max.
+Proof. exact Lemmas.chunk_shape_bound. Qed.
+Print Assumptions chunk_shape_bound.
+
+(* the translated loop is the reference recursion *)
+Theorem find_chunk_shape_is_model : forall shape n,
+  find_chunk_shape shape (Some n) = m_find_chunk_shape shape n.
+Proof. exact Lemmas.gen_find_chunk_shape_eq. Qed.
+Print Assumptions find_chunk_shape_is_model.
+
+(* iterating in chunks visits every element exactly once (reference chunk list m_chunks = product of per-axis tilings) *)
+Theorem chunks_partition : forall shape cs idx,
+  Forall (fun c => 1 <= c) cs -> length cs = length shape ->
+  Forall2 (fun x n => 0 <= x < n) idx shape ->
+  count (in_chunk idx) (m_chunks shape cs) = 1%nat.
+Proof. exact Lemmas.m_chunks_partition. Qed.
+Print Assumptions chunks_partition.
+
+(* every chunk is a non-empty box inside the array, no larger than the chunk shape *)
+Theorem chunks_wellformed : forall shape cs,
+  Forall (fun c => 1 <= c) cs -> Forall (fun n => 0 <= n) shape -> length cs = length shape ->
+  Forall (fun ch => Forall2 (fun t n => 0 <= fst t /\ fst t < snd t /\ snd t <= n) ch shape /\
+                    1 <= chunk_size ch <= zprod cs) (m_chunks shape cs).
+Proof. exact Lemmas.m_chunks_wf. Qed.
+Print Assumptions chunks_wellformed.
+
+Theorem chunks_empty_shape : forall shape cs,
+  length cs = length shape -> In 0 shape -> m_chunks shape cs = [].
+Proof. exact Lemmas.m_chunks_empty. Qed.
+Print Assumptions chunks_empty_shape.
+
+(* categorical arrays: sorted unique categories, categories[codes] == values *)
+Theorem categorical_spec : forall vals : list Z,
+  StronglySorted Z.lt (categories vals) /\
+  (forall y, In y (categories vals) <-> In y vals) /\
+  Forall (fun c => 0 <= c < zlen (categories vals)) (codes vals) /\
+  map (znth (categories vals)) (codes vals) = vals.
+Proof. exact Lemmas.categorical_spec. Qed.
+Print Assumptions categorical_spec.
+
+Theorem slice_indices_bounds : forall s n b e k,
+  0 <= n -> slice_indices s n = Some (b, e, k) -> 0 < k -> 0 <= b <= n /\ 0 <= e <= n.
+Proof. exact Lemmas.slice_indices_bounds. Qed.
+Print Assumptions slice_indices_bounds.
